@@ -4,6 +4,7 @@ import NeoFS.Driver.Range
 import NeoFS.Driver.Grace
 import NeoFS.Driver.Arith
 import NeoFS.Driver.Timers
+import NeoFS.Driver.Gov
 open NeoFS NeoFS.Driver
 
 /-- State of all stateful models; pure models need none. -/
@@ -19,6 +20,7 @@ def stepLine (s : DState) (line : String) : DState × String :=
   | "range" => (s, rangeStep o)
   | "grace" => (s, graceStep o)
   | "arith" => (s, arithStep o)
+  | "gov" => (s, govStep o)
   | "timers" => let (t, out) := timersStep s.timers o; ({ s with timers := t }, out)
   | _ => (s, "=> bad-op")
 
